@@ -9,6 +9,10 @@ VERIF = os.path.dirname(os.path.dirname(os.path.abspath(__file__)))
 def build(profile='dev'):
     env = dict(os.environ, CARGO_NET_OFFLINE='true')
     env.pop('RUSTUP_TOOLCHAIN', None)
+    lock = os.path.join(VERIF, 'replay', 'Cargo.lock')
+    if not os.path.exists(lock):
+        import shutil
+        shutil.copy(os.path.join(os.environ.get('VERIF_REPO', '/repo'), 'Cargo.lock'), lock)
     cmd = ['cargo', 'build', '--offline', '--manifest-path', os.path.join(VERIF, 'replay', 'Cargo.toml'),
            '--target-dir', os.path.join(VERIF, '.build', 'replay-target')]
     if profile == 'release':
